@@ -262,14 +262,16 @@ class Dense:
         with torch.no_grad():
             for k in range(max_iter):
                 y = self.F(x)
-                d = 0.0
-                m = 0.0
+                d = 0.0          # largest change *relative to the entry* (entries may be tiny: an absolute
+                m = 0.0          # criterion would stop too early for them)
                 for n in self.nts:
                     if y[n].numel():
                         a, b = y[n], x[n]
                         both = (a == b)
                         diff = torch.where(both, torch.zeros_like(a), (a - b).abs())
-                        d = max(d, float(diff.max()))
+                        scale = a.abs().clamp(min=1e-300) if self.semiring == 'real' else torch.ones_like(a)
+                        rel = torch.where(both, torch.zeros_like(a), diff / scale)
+                        d = max(d, float(rel.max()))
                         fin = a[torch.isfinite(a)]
                         if fin.numel():
                             m = max(m, float(fin.abs().max()))
@@ -277,7 +279,7 @@ class Dense:
                 hist.append(d)
                 if d != d or m > blowup:
                     return x, k + 1, False, hist
-                if d <= rtol * (1 + m):
+                if d <= rtol:
                     return x, k + 1, True, hist
         return x, max_iter, False, hist
 
